@@ -247,6 +247,8 @@ def _fire(cfg, w, seed, history, ev, tracks, pre: StatePre, confirm):
             add("C20", "refresh-count", f"{len(out.refresh)} emissions from one accepted top-level action", "apply", tag)
         elif out.refresh[0] != exp_payload:
             add("C20", "refresh-payload", f"payload {out.refresh[0]!r}, expected {exp_payload!r}", "apply", tag)
+        elif exp_payload is not None and exp_payload not in tracks.graph:
+            add("C20", "refresh-payload-not-a-node", f"refresh announces new node {exp_payload!r} but no such node exists after the action", "apply", tag)
     post_bad = run_invariants(tracks, cfg, props)
     res["post_bad"] = set(post_bad)
     for p, lst in post_bad.items():
